@@ -295,6 +295,15 @@ def run(ctx):
                 a, c = st.store.get("(*_2)"), st.store.get(pp)
                 if a and c and a[0] == "lin" and c[0] == "lin" and entails(st.facts, an.iv, a[1] - c[1] - 1, 2) and entails(st.facts, an.iv, c[1] + 1 - a[1], 2):
                     okt = True
+            if not okt:
+                # the read cursor may be dead right after the transition (it was copied into a helper's parameter): the same
+                # relation as seen from the head of the following partition - its caller cursor is the read cursor of the
+                # not-following head (the iteration that met the first pointer) plus one
+                st1 = an.entry[n1]
+                a1, c0 = st1.store.get("(*_2)"), st0.store.get(pp)
+                if a1 and c0 and a1[0] == "lin" and c0[0] == "lin" and entails(st1.facts, an.iv, a1[1] - c0[1] - 1, 2) and \
+                        entails(st1.facts, an.iv, c0[1] + 1 - a1[1], 2):
+                    okt = True
             report.count()
             if okt:
                 report.nontriv("R6 transition")
